@@ -97,9 +97,35 @@ def probe(eng, x):
     return out
 
 
+def oracle(i, x):
+    """what bundle i answers when built alone — written from the bundle definitions above (independent of the engine and of process-wide state)"""
+    pet = {1: {"__typename": "Cat", "name": "liar1", "lives": 9}, 2: {"__typename": "Dog", "name": "liar2"}, 3: {"__typename": "Dog", "name": "liar3"}}[i]
+    u = {"__typename": "Dog", "name": "dog%d" % i} if i != 3 else {"__typename": "Cat", "name": "cat3"}
+    pets = [{"__typename": "Dog", "name": "liar%d" % i}, {"__typename": "Dog", "name": "dog%d" % i}]
+    echo = None if x is None else (x * 100 + i) * 10 + i
+    return [{"data": {"pet": pet}}, {"data": {"u": u}}, {"data": {"pets": pets}}, {"data": {"item": 70 + i, "v": i + 100 * i}}, {"data": {"echo": echo}},
+            {"data": {"echo": (5000 + i) * 10 + i}}, [{"data": {"s": i}}, {"data": {"s": 10 * i}}]]
+
+
+def _fresh_process_alone(i):
+    """the bundle built alone in a FRESH PROCESS (the property's reference), compared with the oracle for x = 3"""
+    import subprocess, sys, json, os
+    code = ("import sys, json; sys.argv=['x']; import os; os.environ['VF_C17_CHILD']='1'; sys.path.insert(0, %r); "
+            "from vf import env; import harness.C17 as H; H.register(%d, 'fresh'); e = env.build(H.SDL, 'fresh'); print('@@' + json.dumps(H.probe(e, 3)))" % (env.VERIF, i))
+    p = subprocess.run([sys.executable, "-c", code], capture_output=True, text=True, env=dict(os.environ, VF_C17_CHILD="1"), timeout=120)
+    for line in p.stdout.splitlines():
+        if line.startswith("@@"):
+            return json.loads(line[2:])
+    return ("child failed", p.stderr[-500:])
+
+
+import os as _os  # noqa: E402
+CHILD = _os.environ.get("VF_C17_CHILD") == "1"
 # ---- references: each bundle built alone in a clean registry ------------------------------------------------------
 ALONE = {}
-for _i in (1, 2, 3):
+FRESH_ALONE = {}
+for _i in (() if CHILD else (1, 2, 3)):
+    FRESH_ALONE[_i] = _fresh_process_alone(_i)
     SchemaRegistry.clean()
     register(_i, "alone_%d" % _i)
     ALONE[_i] = build(SDL, "alone_%d" % _i, query_cache_decorator=DictCache())
@@ -107,7 +133,7 @@ for _i in (1, 2, 3):
 SchemaRegistry.clean()
 COMBOS = []
 ENG = {}
-for _sub in ([1, 2], [1, 3], [2, 3], [1, 2, 3]):
+for _sub in (() if CHILD else ([1, 2], [1, 3], [2, 3], [1, 2, 3])):
     for _reg in itertools.permutations(_sub):
         for _cook in itertools.permutations(_sub):
             _c = len(COMBOS)
@@ -135,9 +161,23 @@ def c17_coresident(c: int, b: int, x: Optional[int]) -> bool:
     sub = COMBOS[c]["subset"]
     i = sub[pick(b, len(sub))]
     ok, got = safe(lambda: probe(ENG[(c, i)], x))
-    ok2, ref = safe(lambda: probe(ALONE[i], x))
+    if x is not None and not (-10 ** 6 < x < 10 ** 6):
+        return True            # the bundles' toy scalar multiplies its input: keep the products small
+    ref = oracle(i, x)
     observe(COMBOS[c], i, got, ref)
-    return verdict(ok and ok2 and got == ref)
+    return verdict(ok and got == ref)
+
+
+@obligation(tier="quick", timeout=60, samples=[{"i": 0}, {"i": 2}], selectors=["i: bundle"], bounds="3 bundles",
+            note="reference validity: each bundle built alone in a fresh process (and alone after SchemaRegistry.clean() in this process) answers exactly what the oracle says")
+def c17_alone(i: int) -> bool:
+    """
+    post: _
+    """
+    i = 1 + pick(i, 3)
+    ok, here = safe(lambda: probe(ALONE[i], 3))
+    observe(FRESH_ALONE[i], here, oracle(i, 3))
+    return verdict(ok and FRESH_ALONE[i] == oracle(i, 3) and here == oracle(i, 3))
 
 
 # ---- registry lookups with a symbolic schema name -------------------------------------------------------------------
@@ -158,7 +198,7 @@ REG_KINDS = [("directives", SchemaRegistry.register_directive), ("resolvers", Sc
              ("scalars", SchemaRegistry.register_scalar), ("subscriptions", SchemaRegistry.register_subscription)]
 BAKED = []
 SchemaRegistry.clean()          # the engines above are built; from here on the registry only holds the stub objects
-for _owner in ("alpha", "beta", "alph", "Alpha", "alpha "):
+for _owner in (() if CHILD else ("alpha", "beta", "alph", "Alpha", "alpha ")):
     for _kind, _reg in REG_KINDS:
         _reg(_owner, Stub("x_" + _kind, _owner, BAKED))
 REGISTERED = {"alpha", "beta", "alph", "Alpha", "alpha "}
